@@ -494,6 +494,25 @@ func TestVerifC19(t *testing.T) {
 			next++
 			c.R.Count("metadata_streams_with_indirect_filter", 1)
 		}
+		// a stream whose /DecodeParms is an indirect object that matters (PNG
+		// predictor), and one whose data is followed by a long run of blanks
+		// before the keyword (padding for in-place updates)
+		{
+			plainData := rng.Bytes(4 * (3 + rng.Intn(20)))
+			rev.Actions[next] = kit.XAction{Value: kit.XDict{"Predictor": int64(12), "Columns": int64(4)}}
+			parms := kit.XRef{Num: next}
+			next++
+			rev.Actions[next] = kit.XAction{Value: &kit.XStream{Dict: kit.XDict{"Filter": kit.XName("FlateDecode"), "DecodeParms": parms},
+				Raw: kit.Deflate(kit.PNGPredictUp(plainData, 4))}}
+			next++
+			body := rng.BytesFrom([]byte("abcdefgh 0123456789"), 20+rng.Intn(100))
+			body[len(body)-1] = 'x'
+			pad := 48 + rng.Intn(24)
+			rev.Actions[next] = kit.XAction{Value: &kit.XStream{Dict: kit.XDict{"Length": int64(len(body))},
+				Raw: append(bytes.Clone(body), bytes.Repeat([]byte(" "), pad)...)}}
+			next++
+			c.R.Count("streams_with_indirect_decode_parms_or_padding", 2)
+		}
 		info["Trapped"] = ind(kit.XName("True"))
 		info["VerifKey"] = ind(kit.XString("custom value"))
 		info["Author"] = ind(kit.XString("A. U. Thor"))
